@@ -212,3 +212,62 @@ Proof.
   change (m_const mods0) with false. change (m_volatile mods0) with false.
   rewrite (finish_semicolon n f false false false mods0 anon_base anon_base name false false (ktok SEMI) rest eq_refl). reflexivity.
 Qed.
+
+(* ------------------------------------------------------------------ *)
+(* class templates: one header in front of a class definition (a tree of Parse/ClassDefThms.v) *)
+From CXV Require Import Parse.Template Parse.TemplateStmt.
+
+Lemma skipn_suffix {A} (X : list A) (k : A) (R : list A) :
+  skipn (length (X ++ k :: R) - S (length R)) (X ++ k :: R) = k :: R.
+Proof.
+  rewrite app_length. cbn [length].
+  replace (length X + S (length R) - S (length R))%nat with (length X) by lia.
+  induction X as [|x q IH]; [reflexivity|exact IH].
+Qed.
+
+Lemma class_template_tree_k K n dt h (w : wclass) T :
+  (esize (WClass w) < K)%nat ->
+  Forall tp_ok h -> welem_ok n dt anon_base anon_base (WClass w) -> tail_ok T ->
+  ev (fun f => body (S K) n f dt None 0 0 (ktok T_template :: tlist_toks h ++ welem_toks (WClass w) ++ T))
+     (DOk ([ITemplate [h] (wclass_spec 0 w)], 0, T)).
+Proof.
+  destruct w as [key name vs ws es]. intros HK Hh Hok HT. cbn [welem_ok] in Hok. destruct Hok as (Hkey & Hws & Hvs & Hin).
+  assert (Hin' : welems_ok n dt name (dtor_of dt name) es).
+  { clear - Hin. induction es as [|x r IHr]; [exact I|]. destruct Hin as [A B]. split; [exact A|now apply IHr]. }
+  assert (E : (fix sum (l : list welem) : nat := match l with [] => O | x :: r => (esize x + sum r)%nat end) es = ssize es).
+  { clear. induction es as [|x r IHr]; [reflexivity|]. cbn [ssize]. now rewrite <- IHr. }
+  assert (Hrb : stop_tok (ktok RBRACE)) by reflexivity.
+  set (INNER := flat_map welem_toks es ++ ktok RBRACE :: ktok SEMI :: T).
+  set (R := mkTk T_NAME name :: vs_toks vs ++ bases_toks ws ++ ktok LBRACE :: INNER).
+  assert (Htoks : welem_toks (WClass (mkWC key name vs ws es)) ++ T = ktok key :: R).
+  { unfold R, INNER. cbn [welem_toks app]. rewrite <- !app_assoc. cbn [app]. rewrite <- !app_assoc. reflexivity. }
+  rewrite Htoks.
+  assert (Hnt : is T_template (ktok key) = false) by (destruct Hkey as [Ek|[Ek|Ek]]; subst key; reflexivity).
+  assert (Hkd : kind_of_tok (ktok key) = K_DECL) by (destruct Hkey as [Ek|[Ek|Ek]]; subst key; reflexivity).
+  destruct (template_stmt_one h (ktok key) R n Hh Hnt) as [f0 H0].
+  cbn [esize] in HK. rewrite E in HK.
+  destruct K as [|k']; [lia|].
+  destruct (body_elems (S k') n dt es name (dtor_of dt name) (default_access [key]) 0 (ktok RBRACE) (ktok SEMI :: T)
+              ltac:(lia) Hin' Hrb) as [f1 H1].
+  exists (Nat.max f0 f1). intros f Hge.
+  remember (S k') as K eqn:EK.
+  cbn [body]. change (assocN (kty (ktok T_template)) tu_table) with (Some H_parse_template). cbn iota.
+  change (H_parse_template =? H_on_block_end) with false. change (H_parse_template =? 0) with false.
+  change (H_parse_template =? H_parse_namespace) with false. rewrite N.eqb_refl. cbn iota.
+  unfold tlist_toks at 1. cbn [app]. change (is LT (ktok LT)) with true. cbn iota.
+  change (ktok LT :: (join_comma (map tp_toks h) ++ [ktok GTk]) ++ ktok key :: R) with (tlist_toks h ++ ktok key :: R).
+  rewrite H0 by lia. rewrite Hkd. rewrite N.eqb_refl. cbn iota.
+  rewrite skipn_suffix.
+  unfold R at 1. rewrite (class_head_written_g true key name vs ws INNER Hkey Hws Hvs).
+  cbv zeta. cbn iota. fold INNER in H1. rewrite H1 by lia.
+  change (is RBRACE (ktok RBRACE)) with true. cbn iota.
+  cbn [fst snd]. change (m_const mods0) with false. change (m_volatile mods0) with false.
+  rewrite (finish_semicolon n f false false (negb (key_is T_class [key])) mods0 anon_base anon_base name false false (ktok SEMI) T eq_refl).
+  cbn [andb]. subst K. rewrite (body_tail _ n f dt None 0 0 T HT). rewrite wclass_spec_eq. reflexivity.
+Qed.
+
+Theorem class_template_tree n dt h (w : wclass) T :
+  Forall tp_ok h -> welem_ok n dt anon_base anon_base (WClass w) -> tail_ok T ->
+  ev (fun f => body (S (S (esize (WClass w)))) n f dt None 0 0 (ktok T_template :: tlist_toks h ++ welem_toks (WClass w) ++ T))
+     (DOk ([ITemplate [h] (wclass_spec 0 w)], 0, T)).
+Proof. intros. apply class_template_tree_k; [lia|assumption|assumption|assumption]. Qed.
